@@ -10,7 +10,7 @@ claimed = {
    text="Proof, for all lengths, offsets, capacities and aliasing of the arguments and all element types, that no function of package slice writes a cell of a backing array that existed before the call, and that every store goes into an array allocated by the call itself. That per-call frame is the inductive step of the history property; the induction over histories is an argument in DESIGN.md, not machine-checked."),
  "C13": dict(design="§4 C13", technique="contract-based deductive verification: functional postconditions (with ghost witness arrays and callback traces) on all 29 functions of pkg/slice, loop invariants, VCs discharged by z3/cvc5; counterexample model replayed on the real functions against an executable reference",
    text="Proof that every function of package slice returns the value its F#-List-style specification gives, for every input in its domain (all lengths, any element type, any total callback), including left-to-right callback order, Sort/SortBy = ascending permutation (against an assumed contract of slices.SortFunc), Distinct = first occurrences."),
- "C10": dict(design="§4 C10", technique="contract-based deductive verification against an ASSUMED contract of go-cmp: OpEqual/OpNotEqual postconditions (never panics, result == struct_eq, negation) proved from the options actually passed to cmp.Equal; thorough tier adds a bounded differential run of the real OpEqual (labelled bounded)",
+ "C10": dict(design="§4 C10", technique="contract-based deductive verification against an ASSUMED contract of go-cmp: OpEqual/OpNotEqual postconditions (never panics, result == struct_eq, negation) proved from the options actually passed to cmp.Equal; node-shape postconditions on the compiler's newEqNeq / newBinOpCall (= and <> are emitted as calls of the table's frt.OpEqual / frt.OpNotEqual with [lhs; rhs]) and the operator-table scan; thorough tier adds a bounded differential run of the real OpEqual (labelled bounded)",
    text="Proof that OpEqual passes exactly the options under which go-cmp's documented behaviour is total structural equality with nil == empty slices, and that OpNotEqual is its negation. The contract of cmp.Equal is an assumption (go-cmp is a dependency, not code of this repository); the thorough tier validates it on a bounded universe of first-order values and says so."),
  "C14": dict(design="§4 C14", technique="contract-based deductive verification: finite-map contracts with a map heap and an assumed each-entry-once enumeration for dict, SMT-string definitions for strings, ghost buffer contents for buf, callback call traces for frt.Pipe/IfElse/IfOnly, no-panic of toS against assumed reflect preconditions; VCs discharged by z3/cvc5",
    text="Proof of the functional contract of every function of pkg/dict, pkg/strings, pkg/buf and of the frt helpers named in the statement, for all arguments; standard-library functions (strings.*, fmt.Sprintf fragment, reflect.Value accessors, bytes.Buffer, map range) enter as assumed contracts listed in the evidence."),
@@ -24,6 +24,8 @@ claimed = {
    text="Proof, for unions of any size and any list of arms (any order, duplicates, unknown names), that exaustiveCheck takes the diagnostic path exactly when some case of the matched union is named by no arm. That parseURules sends every default-less match through it is read from the code, not proved."),
  "C07": dict(design="§4 C07", technique="contract-based deductive verification (partial, 3 clauses): output naming and .foi handling as postconditions of transpileOne over an abstract file system, psResetTmpCtx frame/reset postcondition, root-scope guard postcondition of parseRootOneStmt, plus one syntactic obligation (parseRootLet uses its incoming state only through the reset)",
    text="Partial. Proved: gen_<base>.go naming next to the source and no file for .foi; the per-let reset zeroes the temporary counter and replaces only the type-variable context; the root guard. NOT decided: the main non-interference clause (insert/delete/reorder unrelated definitions, split into files) - it is a whole-parser property over scopes and global tables that these function contracts do not reach; the evidence says so."),
+ "C08": dict(design="§4 C08", technique="contract-based deductive verification: ghost-rank contract (ghost parameter / ghost result / ghost well-grouped flag) on the mutually recursive precedence-climbing pair parseBinAfter / parseExprWithPrec with a like-contract on the function-typed parameter, node-shape postconditions on the binary-operator factory, template postcondition on binOpToGo, plus closed-world scans of the operator table literal and of the newBinOpCall call sites; z3/cvc5; failing chains found by running the real parser and emitter on enumerated operator chains",
+   text="Proof, for operator chains of any length, that every binary node is built with a left operand of rank >= and a right operand of rank > its operator's rank (one fixed table, left association), that nodes keep (accumulated, new) as (left, right), that a node is emitted parenthesised in order, and that the table literal is the published one. Operands (parseTerm results) are abstract: that application binds tighter and that no operand is lost or reordered is not decided."),
 }
 na = {
  "C01": "whole-compiler semantic preservation needs a formal semantics of Folang and of Go plus a simulation proof through tokenizer, parser, inference and emitter; no function-level contract expresses it (DESIGN §5). Its run-time ingredients are decided under C10, C12-C14.",
